@@ -280,6 +280,29 @@ def mergeBase (g : Dag) (q : PQ Key) (wsOrder : List (Nat × Key) → List (Nat 
     | .panic => .panic
     | .fuel => .fuel
 
+/-- `graph.clear_commit_data(|f| *f = Flags::empty())` -/
+def clearCommitData (_old : FlagMap) : FlagMap := FlagMap.clear
+
+/-- `merge_base()` on a re-used `Graph` whose commits still carry the flags `old` of earlier —
+possibly aborted — queries: the flags are cleared BEFORE anything else happens, so painting starts
+from `clearCommitData old = FlagMap.clear` exactly as in `mergeBase` (see
+`Props.C46.merge_base_ignores_stale_flags`). -/
+def mergeBaseOn (g : Dag) (q : PQ Key) (wsOrder : List (Nat × Key) → List (Nat × Key)) (n : Nat)
+    (old : FlagMap) (first : Nat) (others : List Nat) : Res (Option (List Nat)) :=
+  if others.isEmpty || others.contains first then .ok (some [first])
+  else
+    match paintLoop g q (paintFuel n others)
+        (let r := paintOthers g q others ((clearCommitData old).set first { c1 := true })
+                    (q.insert (keyOf g first) first q.empty)
+         { flags := r.1, queue := r.2, out := [] }) with
+    | .ok s =>
+      match removeRedundant g wsOrder n s.out with
+      | .ok r => .ok (if r.isEmpty then none else some r)
+      | .panic => .panic
+      | .fuel => .fuel
+    | .panic => .panic
+    | .fuel => .fuel
+
 /-- the returned commits as a list (`None` = no merge base) -/
 def basesOf : Option (List Nat) → List Nat
   | none => []
@@ -328,6 +351,24 @@ def showIdx (l : List Nat) : String :=
 def wsId (l : List (Nat × Key)) : List (Nat × Key) := l
 
 def handle? : List String → Option String
+  | "mbretry" :: _cg :: n :: rest => do
+    -- the same query on a Graph in which an aborted query left every flag set
+    let n ← n.toNat?
+    let (rows, rest) ← takeRows n rest
+    match rest with
+    | first :: others =>
+      let first ← first.toNat?
+      let others ← others.mapM String.toNat?
+      if first ≥ n || others.any (· ≥ n) then none
+      else
+        let g := dagOfRows rows.toArray
+        let dirty : FlagMap := ⟨fun _ => { c1 := true, c2 := true, stale := true, result := true }⟩
+        match mergeBaseOn g (listPQ Key.le) wsId n dirty first others with
+        | .ok none => some "bases:none"
+        | .ok (some r) => some ("bases:" ++ showIdx (sortNat r))
+        | .panic => some "panic"
+        | .fuel => some "fuel"
+    | [] => none
   | "mb" :: _cg :: n :: rest => do
     let n ← n.toNat?
     let (rows, rest) ← takeRows n rest
